@@ -32,7 +32,9 @@ m = dict(
     hooks=dict(guard="verif", enable="none needed: harnesses, stubs and canaries enter through go/packages and `go test -overlay` overlays; /repo has no guarded hooks",
                baseline_off_cmd=baseline, source_commits=[], add_only=True),
     engines=[dict(name="gosym", path="gosym/", serves_properties=[c["property_id"] for c in checks],
-                  kind_free_text="symbolic executor for Go SSA (fork of x/tools go/ssa/interp + SMT-LIB back end to z3/cvc5), decision-prefix replay, multi-process workers")],
+                  kind_free_text="symbolic executor for Go SSA (fork of x/tools go/ssa/interp + SMT-LIB back end to z3/cvc5), decision-prefix replay, multi-process workers"),
+             dict(name="crosshair", path="pycheck/", serves_properties=["C10"],
+                  kind_free_text="CrossHair (pre-installed, python3-vt): symbolic execution of the real Python modules with z3; harness functions with asserted bounds in pycheck/, driven by ./check (run kind 'crosshair'); only 'Confirmed over all paths' or a CPython-replayed counterexample counts")],
     checks=checks,
     not_applicable=na,
     notes="Every check regenerates its encoding from /repo's working tree on each run (go/packages + go/ssa). Exit 0 held / 1 violation (replay-confirmed) / 3 inconclusive.",
